@@ -407,6 +407,17 @@ func (f *feed) drain(k int) «Iter[int]» {
 	return nil
 }
 
+// the operand is a dereference of a pointer variable: '*p' is read once, when the statement
+// is reached; the consumer re-points what p points to in the middle of the delegation
+func drainPtr(p *«Iter[int]», k int) «Iter[int]» {
+	«YieldFrom»(*p)
+	«Yield»(k)
+	for v := range «RANGE((*p))» {
+		«Yield»(v + 1)
+	}
+	return nil
+}
+
 // a generator that only forwards: its single statement delegates to a generator call whose
 // operands are plain field reads; they are read when the statement is reached (first
 // advance), not when fwdNums is called
@@ -428,6 +439,7 @@ func (f feed) drainByValue(k int) «Iter[int]» {
 		"func dnums(from, n int) «Iter[int]» {\n", "func dnums(from, n int) «Iter[int]» {\n\treturn refco.Go(func(ʏ *refco.Y[int]) {\n",
 		"func (f *feed) drain(k int) «Iter[int]» {\n", "func (f *feed) drain(k int) «Iter[int]» {\n\treturn refco.Go(func(ʏ *refco.Y[int]) {\n",
 		"func (f feed) drainByValue(k int) «Iter[int]» {\n", "func (f feed) drainByValue(k int) «Iter[int]» {\n\treturn refco.Go(func(ʏ *refco.Y[int]) {\n",
+		"func drainPtr(p *«Iter[int]», k int) «Iter[int]» {\n", "func drainPtr(p *«Iter[int]», k int) «Iter[int]» {\n\treturn refco.Go(func(ʏ *refco.Y[int]) {\n",
 		"func fwdNums(f *feed, n int) (_ «Iter[int]») {\n", "func fwdNums(f *feed, n int) «Iter[int]» {\n\treturn refco.Go(func(ʏ *refco.Y[int]) {\n",
 		"\treturn nil\n}\n", "\treturn\n\t})\n}\n",
 		"\treturn\n}\n", "\treturn\n\t})\n}\n",
@@ -486,6 +498,15 @@ func UseFwd(a, b int) int {
 	s := 0
 	for v := range «RANGE(it)» {
 		s = s*3 + v
+	}
+	cur := dnums(a, 3)
+	dp := drainPtr(&cur, -7)
+	if dp.MoveNext() {
+		s = s*3 + dp.Current()
+	}
+	cur = dnums(b+40, 2) // re-pointed mid-delegation: the running delegation does not notice
+	for dp.MoveNext() {
+		s = s*3 + dp.Current()
 	}
 	var nf *feed
 	never := fwdNums(nf, 1) // never advanced: nothing of its body runs, not even the nil dereference
